@@ -219,3 +219,61 @@ class _EmptyList(TypeSpec):
 
 
 EMPTY = None
+
+
+# ---- the concrete hooks (refinement of the abstract sequence) -----------------------------------------------------------
+SB = 'gambit.sigs.base.'
+SigT = TArr(None, 'ndarray')
+
+
+class SigListT(TypeSpec):
+	def make(self, name, st, eng):
+		return Rec(SB + 'SignatureList', _list=SeqOf(TSpec(SigT), ref=True), kmerspec=Obj('KmerSpecV', nonnull=False), dtype=Const(DType('u', 2))).make(name, st, eng)
+
+
+class ConcatT(TypeSpec):
+	def make(self, name, st, eng):
+		return Rec(SB + 'SignatureArray', values=NdArr('u2'), bounds=NdArr('i8'), kmerspec=Obj('KmerSpecV', nonnull=False)).make(name, st, eng)
+
+
+def wf_concat(pe, self):
+	"""representation invariant: at least one bound, bounds[0] >= 0, non-decreasing, last bound within values"""
+	v, b = pe.deref(pe.attr(self, 'values')), pe.deref(pe.attr(self, 'bounds'))
+	p, q = z3.Int(fresh_name('p')), z3.Int(fresh_name('q'))
+	return SBool(z3.And(b.length >= 1, b.at(0) >= 0, b.at(b.length - 1) <= v.length,
+		z3.ForAll([p, q], z3.Implies(z3.And(0 <= p, p <= q, q < b.length), b.at(p) <= b.at(q)))))
+
+
+def same_sig(pe, a, b):
+	"""the same signature: same length and elements"""
+	a = a if isinstance(a, SArr) else pe.deref(a)
+	b = b if isinstance(b, SArr) else pe.deref(b)
+	j = z3.Int(fresh_name('j'))
+	return SBool(z3.And(a.length == b.length, z3.ForAll([j], z3.Implies(z3.And(0 <= j, j < a.length), a.at(j) == b.at(j)))))
+
+
+def concat_view(pe, self, i):
+	"""values[bounds[i] : bounds[i+1]]"""
+	v, b = pe.deref(pe.attr(self, 'values')), pe.deref(pe.attr(self, 'bounds'))
+	i = int_term(i)
+	return v.sub(b.at(i), b.at(i + 1))
+
+
+NS['wf_concat'] = wf_concat
+NS['same_sig'] = same_sig
+NS['concat_view'] = concat_view
+
+
+def register_hooks(reg):
+	L = SB + 'SignatureList.'
+	reg.contract(L + '__len__', types={'self': SigListT()}, ensures=['result == len(self._list)'], returns=Int)
+	reg.contract(L + '_getitem_int', types={'self': SigListT(), 'i': Int}, requires=['0 <= i', 'i < len(self._list)'],
+		ensures=['same_sig(result, self._list[i])'])
+	reg.contract(L + '__setitem__', types={'self': SigListT(), 'i': Int, 'sig': TSpec(SigT)},
+		raises={'IndexError': 'not (-len(self._list) <= i and i < len(self._list))'}, writes=['self'],
+		ensures=['len(self._list) == old(len(self._list))',
+		         'forall(j, 0 <= j, j < len(self._list), same_sig(self._list[j], sig) if j == (i + len(self._list) if i < 0 else i) else same_sig(self._list[j], old(self._list[j])))'])
+	C = SB + 'ConcatenatedSignatureArray.'
+	reg.contract(C + '__len__', types={'self': ConcatT()}, requires=['wf_concat(self)'], ensures=['result == len(self.bounds) - 1', 'result >= 0'], returns=Int)
+	reg.contract(C + '_getitem_int', types={'self': ConcatT(), 'i': Int}, requires=['wf_concat(self)', '0 <= i', 'i < len(self.bounds) - 1'],
+		ensures=['same_sig(result, concat_view(self, i))'])
